@@ -252,6 +252,17 @@ def wlx (w : CWl) : RV.Oracle.Cluster.WlX :=
 def exposureOK (s : CS) : Bool :=
   s.gone || (match s.wl with | some w => RV.Oracle.Cluster.exposureWithinStep (roWorld s) (wlx w) | none => true)
 
+/-- **C01 / C08 (closed loop)** — no pod runs a revision the rollout has not taken up (`RV.Oracle.Cluster.supervised` on the
+    joint state) -/
+def supervisedOK (s : CS) : Bool :=
+  s.gone || (match s.wl with | some w => RV.Oracle.Cluster.supervised (roWorld s) (wlx w) | none => true)
+
+/-- guard of known finding `supersedeRace`: the rollout is rolling on a revision that is no longer the workload's update
+    revision (a newer revision was pushed and the Rollout controller has not reset the release yet) -/
+def gSupersedeRace (s : CS) : Bool :=
+  !s.gone && s.ro.phase == .progressing && s.ro.reason == .inRolling &&
+  (match s.ro.sub, s.wl with | some sub, some w => sub.canaryRev != w.updateRevision | _, _ => false)
+
 /-- **C09** — no reconciler panics from this state -/
 def totalOK (s : CS) : Bool := (step s .ro).isSome && (step s .br).isSome
 
@@ -259,7 +270,8 @@ def stateOracles (s : CS) (fwd : Bool) (del : Bool := false) : List (String × B
   let inv := (!fwd || fwdInv s) && (!del || delInv s)
   [("C01.loop_inv", inv), ("C02.loop_inv", inv), ("C06.loop_inv", inv), ("C07.loop_inv", inv), ("C09.loop_inv", inv),
    ("C09.loop_total", totalOK s), ("C06.loop_total", totalOK s),
-   ("C01.loop_exposure", exposureOK s), ("C06.loop_exposure", exposureOK s)]
+   ("C01.loop_exposure", exposureOK s), ("C06.loop_exposure", exposureOK s),
+   ("C01.loop_supervised", supervisedOK s), ("C06.loop_supervised", supervisedOK s)]
 
 /-- **C02.i on one Rollout reconcile of the closed loop** (the conclusion of `RV.Lemmas.ClosedLoop.rolling_gate`, judged on
     the state before and after): the index moves only from `StepReady` by one; a gate that is passed was observed open -/
